@@ -24,6 +24,7 @@ pub mod tags;
 pub mod lexrep;
 pub mod loc;
 pub mod textcodec;
+pub mod clone;
 
 // ------------------------------------------------------------------ PRNG (splitmix64)
 #[derive(Clone)]
